@@ -89,3 +89,69 @@ func c07WriteFaults(r *Result) {
 		}
 	}
 }
+
+// c07MutatingHandlers: a handler is handed a pointer to the decoded request item and may do with it what it likes - normalise
+// the batch item ID in place, turn its Destroy item into a Revoke item to share code, wipe the ID. The response still carries,
+// item for item, the operation code and the unique batch item ID THE CLIENT SENT.
+func c07MutatingHandlers(r *Result) {
+	key := "batch [Activate id=item-a, Destroy id=item-b, Get id=item-c]; the Activate handler upper-cases the ID bytes in place, the Destroy handler rewrites item.Operation to Revoke and reassigns item.UniqueID, the Get handler wipes the ID and fails"
+	crumb("C07 " + key)
+	r.eval(key, true)
+	s := &kmip.Server{}
+	s.Handle(kmip.OPERATION_ACTIVATE, func(ctx *kmip.RequestContext, item *kmip.RequestBatchItem) (interface{}, error) {
+		for i := range item.UniqueID {
+			if item.UniqueID[i] >= 'a' && item.UniqueID[i] <= 'z' {
+				item.UniqueID[i] -= 32
+			}
+		}
+		return kmip.ActivateResponse{UniqueIdentifier: "x"}, nil
+	})
+	s.Handle(kmip.OPERATION_DESTROY, func(ctx *kmip.RequestContext, item *kmip.RequestBatchItem) (interface{}, error) {
+		item.Operation = kmip.OPERATION_REVOKE
+		item.UniqueID = []byte("changed")
+		return kmip.DestroyResponse{UniqueIdentifier: "y"}, nil
+	})
+	s.Handle(kmip.OPERATION_GET, func(ctx *kmip.RequestContext, item *kmip.RequestBatchItem) (interface{}, error) {
+		for i := range item.UniqueID {
+			item.UniqueID[i] = 0
+		}
+		item.UniqueID = nil
+		item.Operation = 0
+		return nil, fmt.Errorf("no such object")
+	})
+	sc, cc := rec.Pipe()
+	l := rec.NewListener()
+	l.Push(rec.AcceptStep{Conn: rec.NewConn(sc, 1)})
+	init := make(chan struct{})
+	ret := make(chan error, 1)
+	go func() { ret <- s.Serve(l, init) }()
+	<-init
+	_ = cc.SetDeadline(time.Now().Add(3 * time.Second))
+	req := kmip.Request{Header: kmip.RequestHeader{Version: kmip.ProtocolVersion{Major: 1, Minor: 4}, BatchCount: 3},
+		BatchItems: []kmip.RequestBatchItem{
+			{Operation: kmip.OPERATION_ACTIVATE, UniqueID: []byte("item-a"), RequestPayload: kmip.ActivateRequest{UniqueIdentifier: "a"}},
+			{Operation: kmip.OPERATION_DESTROY, UniqueID: []byte("item-b"), RequestPayload: kmip.DestroyRequest{UniqueIdentifier: "b"}},
+			{Operation: kmip.OPERATION_GET, UniqueID: []byte("item-c"), RequestPayload: kmip.GetRequest{UniqueIdentifier: "c"}}}}
+	var resp kmip.Response
+	err := kmip.NewEncoder(cc).Encode(&req)
+	if err == nil {
+		err = kmip.NewDecoder(cc).Decode(&resp)
+	}
+	obs := "no response: " + fmt.Sprint(err)
+	if err == nil {
+		obs = ""
+		for _, it := range resp.BatchItems {
+			obs += fmt.Sprintf("[op=%d id=%s status=%d] ", uint32(it.Operation), it.UniqueID, uint32(it.ResultStatus))
+		}
+	}
+	want := fmt.Sprintf("[op=%d id=item-a status=0] [op=%d id=item-b status=0] [op=%d id=item-c status=1] ", uint32(kmip.OPERATION_ACTIVATE), uint32(kmip.OPERATION_DESTROY), uint32(kmip.OPERATION_GET))
+	if obs != want {
+		r.find(Finding{Kind: "violation", What: "the response items do not carry the operation codes and unique batch item IDs of the request (handlers that modify the item they are given)", Input: key, Expect: want, Actual: obs})
+	}
+	cc.Close()
+	ctx, cancel := context.WithTimeout(context.Background(), 5*time.Second)
+	_ = s.Shutdown(ctx)
+	cancel()
+	<-ret
+	r.Stats["mutating-handler-scenarios"]++
+}
